@@ -501,19 +501,22 @@ def closure_summary(facts, path, env_fields, arg):
     return [o.value for o in outs if o.kind == "ret"]
 
 
-def reconstruct_summary(facts):
+def reconstruct_summary(facts, n_items=1):
     body = facts.fn("compound::Compound::mul::reconstruct")
     if body is None:
         return None
 
     def extra(dom, it, name, args, vals, store):
         if name == "std::iter::IntoIterator::into_iter" and isinstance(vals[0], Sym) and vals[0].name == "der":
-            item = Agg("tuple", None, None, None, (Sym("unit"), Sym("power"), Sym("n")))
-            return [(IterV([item]), store)]
+            if n_items == 1:
+                items = [Agg("tuple", None, None, None, (Sym("unit"), Sym("power"), Sym("n")))]
+            else:
+                items = [Agg("tuple", None, None, None, (Sym("unit%d" % i), Sym("power%d" % i), Sym("n%d" % i))) for i in range(n_items)]
+            return [(IterV(items), store)]
         if name == "<powers::Powers as std::default::Default>::default":
-            return [(Sym("powers"), store)]
+            return [(Sym("powers"), dom.with_log(store, ("scratch-fresh",)) if n_items > 1 else store)]
         if name == "powers::Powers::clear":
-            return [(UNIT, store)]
+            return [(UNIT, dom.with_log(store, ("scratch-clear",)) if n_items > 1 else store)]
         if name == "unit::Unit::powers":
             return [(Const(True), dom.with_log(store, ("unit.powers", repr(vals[0]), vals[2]))), (Const(False), store)]
         if name == "compound::Compound::mul::bases_match":
